@@ -177,9 +177,8 @@ _J_RE = re.compile(r"^/?\\?\s*j = (\d+)\s*$", re.M)
 
 
 def _run_batch(tla_insts, idx, timeout_s, bname):
-    # tlc.run_tlc polls TLC's output file through the file description it shares with the running TLC process, which can
-    # (rarely) misplace a line that TLC writes during the poll.  A damaged line is unparsable and a misplaced one is missing,
-    # so the export is accepted only if every line parses and there is exactly one line per distinct state; else run again.
+    # Export integrity: the export is accepted only if every PrintT line parses and there is exactly one GN/RET line per
+    # distinct state (older versions of tlc.run_tlc could misplace a line while polling TLC's output); else run again.
     for attempt in range(5):
         wd = tlc.make_workdir()
         try:
@@ -386,7 +385,7 @@ def _borderline(st, inst, margin=1e-6):
 def check_instance(inst, spec, *, tol=1e-9, with_default_loop=True):
     """replay one instance; returns (list of (key, detail), info dict)"""
     bad = []
-    info = {"compared_states": 0, "returned": False, "borderline": False, "map": False, "filter_update": False, "max_relerr": 0.0}
+    info = {"compared_states": 0, "returned": False, "borderline": False, "map": False, "filter_update": False, "max_relerr": 0.0, "range_checked": 0}
 
     def cmp(key, got, want, what=""):
         err = maxerr(got, want)
@@ -440,16 +439,21 @@ def check_instance(inst, spec, *, tol=1e-9, with_default_loop=True):
             break  # rank-deficient solve: not modelled
         k += 1
 
-    # (b) range membership of the real iterates (well-conditioned solves only)
-    for q in range(1, len(rec)):
+    # (b) range membership of the real iterates themselves, for the steps that the specification models (the exact
+    # J L has full row rank at the previous iterate) and that are well conditioned in float64
+    for q in range(1, min(len(rec), k + 2)):
+        prev = states.get(q - 1)
+        if prev is None or prev["blocked"] or not (prev["cont"] and prev["solvable"]):
+            break
         J = jac_float(inst, rec[q - 1]["x"])
         H = J @ L
         sv = np.linalg.svd(H, compute_uv=False)
-        if sv.size < H.shape[0] or sv[-1] <= 1e-4 * sv[0] or not np.all(np.isfinite(rec[q]["x"])):
-            continue
+        if sv[-1] <= 1e-6 * max(1.0, np.linalg.norm(J, 2) * np.linalg.norm(L, 2)) or not np.all(np.isfinite(rec[q]["x"])):
+            break
         M = P @ J.T
         v = rec[q]["x"] - m
         y = np.linalg.lstsq(M, v, rcond=None)[0]
+        info["range_checked"] += 1
         if not close(M @ y, v, tol):
             bad.append(("range", f"k={q}: x - m is not in range(P J^T): residual {np.max(np.abs(M @ y - v)):.3e}, x - m = {v.tolist()}"))
             break
